@@ -808,7 +808,7 @@ def run(res, tier):
     try:
         std.run_lab(res, PID, tier, area="smuggling", gens=["charsets", "reqparse", "hdrtable", "smuggling"],
                     gen_scenarios=gen_scenarios, run_impl=run_impl, to_case=to_case, oracle=oracle,
-                    corr_name="SmugglingModel (run_stream) vs the running squid", n_quick=330, n_thorough=6000, seed_salt=3,
+                    corr_name="SmugglingModel (run_stream) vs the running squid", n_quick=280, n_thorough=6000, seed_salt=3,
                     kind_fn=kind_of, nontrivial_fn=lambda s, o: bool(s.get("mut")) or s.get("n", 1) > 1)
     finally:
         _state.clear()
